@@ -439,6 +439,23 @@ func (r *runner) doStep(st Step) {
 		} else if !ok {
 			r.stats["diverged"]++
 		}
+	case "probe":
+		var extra []func()
+		switch s.Rng.IntN(4) {
+		case 0:
+			extra = append(extra, func() { r.rec.Log("StopB"); r.srv.Stop(); r.rec.Log("StopE") })
+		case 1:
+			extra = append(extra, func() { r.doNotify(context.Background(), r.srv) })
+		case 2:
+			extra = append(extra, func() { r.rec.Log("CancelB", "id", "1"); r.srv.CancelRequest("1"); r.rec.Log("CancelE", "id", "1") })
+		}
+		kind := "send"
+		if st.Kind == "close" {
+			kind = "close"
+		}
+		if s.Probe(kind, extra) {
+			r.stats["probes"]++
+		}
 	case "rand":
 		for i := 0; i < max(1, st.N); i++ {
 			if !s.ReleaseRandom() {
@@ -462,6 +479,9 @@ func (r *runner) doStep(st Step) {
 		if r.waitReturned() {
 			r.gen++
 			r.ch = vh.NewVChan(fmt.Sprintf("s%d", r.gen), r.rec, r.sc.Opts.RecvUnblocks)
+			name := r.ch.Name
+			r.ch.InSendHook = func() { s.InOp("send", name) }
+			r.ch.InCloseHook = func() { s.InOp("close", name) }
 			r.rec.Log("Start", "gen", r.gen, "ch", r.ch.Name)
 			r.srv.Start(r.ch)
 			r.startWaitStatus()
@@ -518,6 +538,9 @@ func Run(t *testing.T, sc *Scenario, emit func(evs []vh.Event, stats map[string]
 		defer jrpc2.VerifInstall(nil, nil)
 
 		r.ch = vh.NewVChan("s1", rec, sc.Opts.RecvUnblocks)
+		s.RootGid = goid()
+		r.ch.InSendHook = func() { s.InOp("send", "s1") }
+		r.ch.InCloseHook = func() { s.InOp("close", "s1") }
 		conc := sc.Opts.Conc
 		r.srv = jrpc2.NewServer(assigner{r}, &jrpc2.ServerOptions{
 			Concurrency: conc, AllowPush: sc.Opts.Push, DisableBuiltin: sc.Opts.NoBuiltin})
